@@ -1085,6 +1085,35 @@ func checkDirEntryErrors(p *core.Prog, r *core.Result, rule string) {
 					excluded = true
 				}
 			}
+			if !excluded {
+				// the entry's sum comes from a wrapper (entrySum) that itself hands up only errors that are not
+				// 'does not exist' errors
+				h := core.Callee(call)
+				all, some := h != nil && !sumFns[h], false
+				for _, hr := range core.ReturnsOf(h) {
+					hv := core.RetVals(hr)
+					if len(hv) != 2 || core.IsNilConst(hv[1]) {
+						continue
+					}
+					some = true
+					okRet := false
+					for _, xf := range xfacts(p, hr) {
+						c, ok := xf.Cond.(*ssa.Call)
+						if !ok || xf.Val {
+							continue
+						}
+						if a := directNotExist(c); a != nil && xf.Arg(a) == hv[1] {
+							okRet = true
+						}
+					}
+					if !okRet {
+						all = false
+					}
+				}
+				if all && some {
+					excluded = true
+				}
+			}
 			r.Check(excluded, rule, fmt.Sprintf("%s#entry-error-%d", fname(f), k), p.InstrPos(ret), "an entry's error is handed up only where it is not a 'does not exist' error", "the error of one entry's sum is returned as the directory's error even when it says 'does not exist': the consumer reads that as 'the source is missing' and takes the empty sum, so a directory with one dangling symbolic link hashes to the same sum whatever it contains and no edit in it is ever noticed")
 		}
 	}
@@ -1526,6 +1555,12 @@ func findStalenessCarriers(fn *ssa.Function) []stalenessCarrier {
 // stat'ed successfully — directly (the loop over gens is exhausted and every failing Stat leads to a false verdict /
 // error), or through a helper method whose "all outputs exist" return is the only one consistent with the facts at `at`.
 func outputsVerifiedAt(p *core.Prog, fn *ssa.Function, at ssa.Instruction, depth int) bool {
+	return outputsVerifiedAtG(p, fn, at, depth, func(v ssa.Value) bool { return core.LoadOfField(v, pkgRoot, "function", "gens") })
+}
+
+// outputsVerifiedAtG: isGens recognises the list of declared outputs (the field function.gens, or inside a helper the
+// parameter that receives it).
+func outputsVerifiedAtG(p *core.Prog, fn *ssa.Function, at ssa.Instruction, depth int, isGens func(ssa.Value) bool) bool {
 	loopDone := holds(p, at, false, func(v ssa.Value) bool {
 		b, ok := v.(*ssa.BinOp)
 		if !ok || b.Op != token.LSS {
@@ -1536,7 +1571,7 @@ func outputsVerifiedAt(p *core.Prog, fn *ssa.Function, at ssa.Instruction, depth
 			return false
 		}
 		bi, ok := ln.Call.Value.(*ssa.Builtin)
-		return ok && bi.Name() == "len" && core.LoadOfField(ln.Call.Args[0], pkgRoot, "function", "gens")
+		return ok && bi.Name() == "len" && isGens(core.Unwrap(ln.Call.Args[0]))
 	})
 	if loopDone {
 		for _, c := range core.Calls(fn) {
@@ -1544,7 +1579,7 @@ func outputsVerifiedAt(p *core.Prog, fn *ssa.Function, at ssa.Instruction, depth
 				continue
 			}
 			call := c.(*ssa.Call)
-			fromGens := core.DependsOn(call.Call.Args[0], core.SliceOpts{}, func(v ssa.Value) bool { return core.LoadOfField(v, pkgRoot, "function", "gens") })
+			fromGens := core.DependsOn(call.Call.Args[0], core.SliceOpts{}, isGens)
 			errV := extractOf(call, 1)
 			if !fromGens || errV == nil || !core.Reaches(call.Block(), call.Block(), false) {
 				continue
@@ -1582,9 +1617,21 @@ func outputsVerifiedAt(p *core.Prog, fn *ssa.Function, at ssa.Instruction, depth
 		if h == nil || !core.InModule(h) || h.Blocks == nil || h == fn {
 			continue
 		}
+		// inside the helper the declared outputs are the field again, or the parameter that receives them here
+		hGens := func(v ssa.Value) bool {
+			if core.LoadOfField(v, pkgRoot, "function", "gens") {
+				return true
+			}
+			if prm, isParam := v.(*ssa.Parameter); isParam && prm.Parent() == h {
+				if i := paramIndex(h, prm); i >= 0 && i < len(call.Call.Args) {
+					return isGens(core.Unwrap(call.Call.Args[i]))
+				}
+			}
+			return false
+		}
 		var good, bad []*ssa.Return
 		for _, hr := range core.ReturnsOf(h) {
-			if outputsVerifiedAt(p, h, hr, depth+1) {
+			if outputsVerifiedAtG(p, h, hr, depth+1, hGens) {
 				good = append(good, hr)
 			} else {
 				bad = append(bad, hr)
